@@ -771,6 +771,29 @@ def refusals_leave_no_trace(R, rule, fns, success_name='REG_ACCESS_SUCCESS'):
     A memo written only once the request was granted is not this rule's business (it is judged by the walk and scan rules
     that read the fields it shortcuts).  Helpers newer than the confirmed function table are looked through."""
     ok = R.E.get(success_name)
+    # members the unit's code reads back (any function that does more than hand a value out): a field nobody consults is a
+    # statistic, not state the operations depend on
+    consulted = set()
+    for fname, fd in R.u.functions.items():
+        body = [c for c in cast.inner(fd) if cast.kind(c) == 'CompoundStmt']
+        stmts = cast.inner(body[0]) if body else []
+        if len(stmts) == 1 and cast.kind(stmts[0]) == 'ReturnStmt':
+            continue
+        for x in cast.walk(fd):
+            if cast.kind(x) == 'ImplicitCastExpr' and x.get('castKind') == 'LValueToRValue':
+                y = cast.strip_all_casts(x['inner'][0])
+                while cast.kind(y) in ('MemberExpr', 'ArraySubscriptExpr', 'ParenExpr'):
+                    if cast.kind(y) == 'MemberExpr':
+                        consulted.add(y.get('name'))
+                    y = cast.strip_all_casts(y['inner'][0])
+
+    def top_member(name):
+        k, last = name, None
+        while isinstance(k, tuple) and k != T:
+            if k[0] == 'f':
+                last = k[2]
+            k = k[1] if k[0] in ('f', 'i', '+', '-', 'cast', '&') else None
+        return last
     for fn in fns:
         ps = R.paths(fn, rule)
         if ps is None:
@@ -784,7 +807,7 @@ def refusals_leave_no_trace(R, rule, fns, success_name='REG_ACCESS_SUCCESS'):
             if code is None or not sym.is_c(strip_cast(code)) or strip_cast(code)[1] == ok:
                 continue
             nref += 1
-            st = [e for e in p.stores() if sym.rooted_at(e.name, T)]
+            st = [e for e in p.stores() if sym.rooted_at(e.name, T) and (top_member(e.name) is None or top_member(e.name) in consulted)]
             if st and bad is None:
                 bad = ('the request is refused (code %d) under {%s}, yet the table keeps %s := %s (%s): a later request reads what this one left behind - '
                        'the answer to a request then depends on the requests made before it'
